@@ -266,7 +266,10 @@ def encode(kind: str, h: str):
     if kind in ('generator', 'lazy'):
         return [['prov', h], 1, {'k': None}]
     if kind == 'listnp':
-        return [np.frombuffer(bytes.fromhex(h), dtype=np.uint8).copy(), np.arange(3)]
+        base = [np.frombuffer(bytes.fromhex(h), dtype=np.uint8).copy(), np.arange(3)]
+        if int(h[:2], 16) % 3 == 0:
+            base += [np.arange(i) + i for i in range(1, 12)]       # more than ten arrays: their order is part of the value
+        return base
     if kind in ('dir', 'continues'):
         return {'prov.txt': h, 'sub/more.bin': 'x' * 10}
     if kind == 'dir_link':
@@ -392,6 +395,10 @@ def lab_run(task, spec, args):
     _log_record(dict(rec, phase='end'))
     if fault_kind == 'bad_type':
         return Unserializable()
+    if fault_kind == 'near_type':
+        # a value of a type that is NOT the declared one but that the storage format could write all the same
+        return {'int': 3.5, 'str': ['not', 'a', 'string'], 'json_dict': ['a', 'list'], 'json_list': {'a': 'mapping'}, 'numpy': [1, 2, 3],
+                'pandas': {'not': 'a frame'}}.get(kind, Unserializable())
     value = encode(kind, h)
     if fault_kind == 'unserializable' and kind in ('json_dict', 'json_list'):
         value = {'prov': h, 'bad': Unserializable()} if kind == 'json_dict' else ['prov', h, Unserializable()]
